@@ -3,6 +3,8 @@
 -/
 import Distill.Proofs.IEReader
 import Distill.Model.OpenGraph
+import Distill.Model.MarkupPage
+import Distill.Gen.Tables
 import Distill.Gen.Funcs
 import Distill.Model.Markup
 import Distill.Gen.Funcs
@@ -183,6 +185,66 @@ theorem og_last_value_wins (s : OG.St) (k v : String) : (s.set k v).get k = v :=
 /-- the OpenGraph accessor never opts out and never provides a copyright -/
 theorem og_no_optout (lower : String → String) (p : OG.Parsed) :
     (OG.source lower p).optOut = false ∧ (OG.source lower p).copyright = "" := ⟨rfl, rfl⟩
+
+/-! ### the schema.org accessor and the whole of `MarkupInfo`, from the document tree (models:
+Distill.Model.SchemaOrg, Distill.Model.MarkupPage; stages `schemaorg`, `markuppage`) -/
+
+theorem schema_org_tie : Gen.schemaOrgBodies = Gen.schemaOrgBodiesExpected := by rfl
+
+def typeName : SO.SType → String
+  | .unsupported => "Unsupported" | .image => "Image" | .article => "Article" | .person => "Person" | .organization => "Organization"
+
+/-- the type table and the tag → attribute table the model spells out are the ones in the source -/
+theorem schema_tables_tie :
+    Gen.schemaTypeURLs.all (fun p => typeName (SO.typeOfURL p.1) == p.2) = true ∧
+    Gen.tagAttributeMap.all (fun p => (SO.attrOfTag p.1).map (fun a => "\"" ++ a ++ "\"") == some p.2) = true := by
+  constructor <;> decide +kernel
+
+/-- a type URL outside the table is unsupported -/
+theorem schema_type_complete (u : String) (h : SO.typeOfURL u ≠ .unsupported) :
+    (Gen.schemaTypeURLs.map (·.1)).contains u = true := by
+  unfold SO.typeOfURL at h
+  simp only [Gen.schemaTypeURLs, List.map, List.contains_cons, List.contains_nil, Bool.or_false]
+  split at h
+  · rename_i h1; simp_all
+  · split at h
+    · rename_i h2; simp only [List.contains_cons, List.contains_nil, Bool.or_false, Bool.or_eq_true, beq_iff_eq] at h2
+      rcases h2 with h2 | h2 | h2 | h2 | h2 <;> simp [h2]
+    · split at h
+      · rename_i h3; simp_all
+      · split at h
+        · rename_i h4; simp only [List.contains_cons, List.contains_nil, Bool.or_false, Bool.or_eq_true, beq_iff_eq] at h4
+          rcases h4 with h4 | h4 | h4 | h4 | h4 <;> simp [h4]
+        · exact absurd rfl h
+
+/-- **Accessor order, from the page**: OpenGraph takes part only when its parsed record passes the
+gate; schema.org always precedes IE Reading View. -/
+theorem page_sources_order (A : PageAtoms) (root : Node) :
+    pageSources A root =
+      (if OG.usable (OG.parse A.lower A.prefixes root) then [OG.source A.lower (OG.parse A.lower A.prefixes root)] else []) ++
+      [SO.source A.lower root, IE.source { lower := A.lower, upper := A.upper, vis := A.vis } root] := by
+  simp [pageSources, sources]
+
+/-- **Opt-out, end to end**: when the first scanned `meta` named IE_RM_OFF says `true`, the
+`MarkupInfo` of the page is entirely empty, whatever OpenGraph and schema.org markup it carries. -/
+theorem page_markup_optout (A : PageAtoms) (root m : Node) (before after : List Node)
+    (hsplit : IE.withTag root "meta" = before ++ m :: after)
+    (hbefore : ∀ x ∈ before, IE.isOptOutName { lower := A.lower, upper := A.upper, vis := A.vis } x = false)
+    (hm : IE.isOptOutName { lower := A.lower, upper := A.upper, vis := A.vis } m = true)
+    (htrue : IE.saysTrue { lower := A.lower, upper := A.upper, vis := A.vis } m = true) :
+    pageMarkup A root = {} := by
+  unfold pageMarkup
+  rw [page_sources_order]
+  have := page_optout_empties { lower := A.lower, upper := A.upper, vis := A.vis } root m before after
+    ((if OG.usable (OG.parse A.lower A.prefixes root) then [OG.source A.lower (OG.parse A.lower A.prefixes root)] else []) ++ [SO.source A.lower root])
+    hsplit hbefore hm htrue
+  simpa [List.append_assoc] using this
+
+/-- only the IE Reading View accessor can opt out -/
+theorem only_ie_opts_out (A : PageAtoms) (root : Node) :
+    (pageSources A root).any (·.optOut) = (IE.source { lower := A.lower, upper := A.upper, vis := A.vis } root).optOut := by
+  rw [page_sources_order]
+  by_cases h : OG.usable (OG.parse A.lower A.prefixes root) = true <;> simp [h, OG.source, SO.source]
 
 /-! ### non-vacuity -/
 def ogS : MSource := { title := "OG title", type := "Article", url := "http://e/", images := [{ url := "i.png" }],
